@@ -2,6 +2,7 @@
 by the layer-1 predicates of spec/api/AutogApi.tla (trace validation, code -> spec)."""
 import itertools
 import json
+import os
 import random
 import time
 
@@ -156,7 +157,7 @@ def spline_cases(tier, rng, count):
     """the spline router on the inputs where its routes can go wrong without the router aborting: several components
     (component shift), parallel / antiparallel pairs (edges sharing their end nodes), reversed and long edges; uniform
     sizes, because zero-size nodes make the router abort (known findings of C01)"""
-    combos = grid(p1=K.P1S, p2=K.P2S, p4=["sink", "valign", "pack", "bk"], p5=["splines"], size=["fixed"], ns=[2, 10], ls=[4, 10])
+    combos = grid(p1=K.P1S, p2=K.P2S, p4=["sink", "valign", "pack", "bk"], p5=["splines"], size=["fixed", "all"], pat=["odd"], ns=[2, 10], ls=[4, 10])
     pool = [(n, e) for n, e, r in K.family("E44") if (r["conn"] == 0 or r["simple"] == 0) and r["loops"] == 0 and len(e) >= 3]
     rng.shuffle(pool)
     for (n, e), cb in rotate(pool[:count], combos, 1, rng):
@@ -274,6 +275,22 @@ def c01_cases(tier, rng):
             yield mk(n, e, combo())
     for n, e in random_inputs(rng, 2500 if tier == "quick" else 40000, 5, 40, density=1.4):
         yield mk(n, e, combo())
+    # the spline router where its corridors are well-formed (positive sizes and spacings, size-aware positioner): no known
+    # finding covers these, a hang or panic here is a violation (regression family of the repairs e4dc109 and 85cb9a1)
+    for n, e in random_inputs(rng, 800 if tier == "quick" else 12000, 4, 14, density=1.3):
+        cb = combo()
+        cb.update(p4=rng.choice(K.P4_SIZE_AWARE), p5="splines", ns=rng.choice([1, 2, 10]), ls=rng.choice([1, 4, 10]),
+                  size=rng.choice(["fixed", "all", "fixed+some", "fixed+all"]), pat=rng.choice(["odd", "unit"]))
+        yield mk(n, e, cb)
+    # inputs that failed before a repair and pass since: run without known-finding matching
+    rp = os.path.join(core.VERIF, "regress", "C01.json")
+    if os.path.exists(rp):
+        with open(rp) as fh:
+            for r in json.load(fh)["cases"]:
+                c = case(r["n"], r["edges"], **{k: r[k] for k in ("p1", "p2", "p4", "p5", "ns", "ls", "fixed", "smap")})
+                c["nokf"] = 1
+                c["budgetms"] = budget_ms(c["n"], len(c["edges"]), c["p4"])
+                yield c
     # size sweeps: long chains (recursion depth), ladders with more than 64 layers, wide layers, larger random graphs
     big = [K.chain(n) for n in ((200, 1000) if tier == "quick" else (200, 1000, 3000))]
     big += [K.ladder(L, w) for L, w in (((70, 2), (66, 3)) if tier == "quick" else ((70, 2), (66, 3), (100, 3), (130, 2)))]
